@@ -7547,7 +7547,22 @@ class SFTPServer:
 
         file_obj = cast(_SFTPFileObj, file_obj)
         file_obj.seek(offset)
-        return file_obj.write(data)
+
+        # The file is unbuffered, so a write can return after writing
+        # only part of the data. Write the rest, so that the reason
+        # for a short write (such as a full disk) is raised as an error.
+        view = memoryview(data)
+        written = 0
+
+        while written < len(data):
+            count = file_obj.write(view[written:])
+
+            if not count:
+                raise SFTPFailure('Short write to file')
+
+            written += count
+
+        return written
 
     def lstat(self, path: bytes) -> MaybeAwait[_SFTPOSAttrs]:
         """Get attributes of a file, directory, or symlink
